@@ -339,7 +339,6 @@ Proof.
     { rewrite pow16_16. lia. }
     rewrite E. exact Hc.
 Qed.
-Print Assumptions hex_shape.
 
 (* 9'. The parser accepts every non-empty digit string (either case, optional single
    leading '+') whose value fits in 64 bits.  This is the statement of [hex_accepts]
@@ -356,7 +355,6 @@ Proof.
   replace (hex_value (strip_plus s) <? two64) with true by lia.
   reflexivity.
 Qed.
-Print Assumptions hex_accepts_strong.
 
 (* 9. As requested (the disjunction is redundant, see [hex_accepts_strong]). *)
 Theorem hex_accepts : forall s,
@@ -367,7 +365,6 @@ Theorem hex_accepts : forall s,
 Proof.
   intros s Hne Hall Hlt _. apply hex_accepts_strong; assumption.
 Qed.
-Print Assumptions hex_accepts.
 
 (* 1. *)
 Theorem hex_roundtrip : forall v, 0 <= v < two64 -> hex_to_u64 (u64_to_hex v) = Ok v.
@@ -382,7 +379,6 @@ Proof.
   - eapply Forall_impl; [|exact Hlow]. intros a Ha. apply is_lower_hex_is_hex, Ha.
   - lia.
 Qed.
-Print Assumptions hex_roundtrip.
 
 (* 3. *)
 Theorem hex_injective : forall a b,
@@ -391,12 +387,10 @@ Proof.
   intros a b Ha Hb E.
   rewrite <- (u64_to_hex_value a Ha), <- (u64_to_hex_value b Hb), E. reflexivity.
 Qed.
-Print Assumptions hex_injective.
 
 (* 5. *)
 Theorem hex_rejects_empty : hex_to_u64 [] = Err.
 Proof. reflexivity. Qed.
-Print Assumptions hex_rejects_empty.
 
 (* 4. Holds as stated with the plain [strip_plus]: for "+" the model returns Err, for
    "++..." the second '+' is a non-digit and the model returns Err, so no corner
@@ -414,7 +408,6 @@ Proof.
   split; [exact Hr|]. split; [|split; [exact Hne|split; [exact Hall|exact Hv]]].
   intros ->. apply Hne. reflexivity.
 Qed.
-Print Assumptions hex_parse_sound.
 
 (* 6. Holds as stated: "+" has [strip_plus "+" = []] so the premise is false (it is
    rejected by [hex_rejects_no_digits] below); "-" has [strip_plus "-" = "-"] whose
@@ -427,12 +420,10 @@ Proof.
   - eapply parse_digits_nonhex; eassumption.
   - intros E. rewrite E in Hin. destruct Hin.
 Qed.
-Print Assumptions hex_rejects_nonhex.
 
 (* Complement of 5/6: nothing left after the optional sign ("" and "+") is an error. *)
 Theorem hex_rejects_no_digits : forall s, strip_plus s = [] -> hex_to_u64 s = Err.
 Proof. exact hex_to_u64_strip_nil. Qed.
-Print Assumptions hex_rejects_no_digits.
 
 (* 7. Too wide is an error, never a truncated value. *)
 Theorem hex_rejects_wide : forall s,
@@ -446,7 +437,6 @@ Proof.
   replace (hex_value (strip_plus s) <? two64) with false by lia.
   reflexivity.
 Qed.
-Print Assumptions hex_rejects_wide.
 
 (* 8. *)
 Theorem hex_total : forall s, hex_to_u64 s <> Panic /\ hex_to_u64 s <> Diverge.
@@ -456,7 +446,6 @@ Proof.
   - rewrite hex_to_u64_strip by (rewrite E; discriminate).
     apply parse_digits_total.
 Qed.
-Print Assumptions hex_total.
 
 (* The parser is decided completely by the three cases above: *)
 Corollary hex_to_u64_cases : forall s,
@@ -491,4 +480,3 @@ Proof.
     apply existsb_exists in Hex. destruct Hex as (b & Hin & Hb).
     exists b. split; [assumption|]. destruct (hex_digit_val b); [discriminate|reflexivity].
 Qed.
-Print Assumptions hex_to_u64_cases.
